@@ -21,6 +21,7 @@ type c10case struct {
 	name     string
 	prepare  func(dir string) (patterns []string) // lays out inputs in dir, returns -i patterns
 	outRel   string                               // -o path relative to dir ("" = out.go)
+	outName  string                               // another base name for the default -o path (the pre-states apply to it)
 	outPrep  func(dir, out string)                // extra preparation of the output location
 	expectOK func(flags []string) bool
 }
@@ -59,6 +60,11 @@ func checkC10(c *Ctx) error {
 	always := func(ok bool) func([]string) bool { return func([]string) bool { return ok } }
 	cases := []c10case{
 		{name: "valid", prepare: func(d string) []string { write(filepath.Join(d, "a.yaml"), valid()); return []string{"a.yaml"} }, expectOK: always(true)},
+		// the base name of -o is free text of up to NAME_MAX bytes
+		{name: "valid-output-name-47", prepare: func(d string) []string { write(filepath.Join(d, "a.yaml"), valid()); return []string{"a.yaml"} }, outName: strings.Repeat("o", 44) + ".go", expectOK: always(true)},
+		{name: "valid-output-name-64", prepare: func(d string) []string { write(filepath.Join(d, "a.yaml"), valid()); return []string{"a.yaml"} }, outName: "zz_generated_" + strings.Repeat("container_", 4) + "gontainer.go", expectOK: always(true)},
+		{name: "valid-output-name-120", prepare: func(d string) []string { write(filepath.Join(d, "a.yaml"), valid()); return []string{"a.yaml"} }, outName: strings.Repeat("name-", 23) + "x.go", expectOK: always(true)},
+		{name: "valid-output-name-255", prepare: func(d string) []string { write(filepath.Join(d, "a.yaml"), valid()); return []string{"a.yaml"} }, outName: strings.Repeat("é", 126) + ".go", expectOK: always(true)},
 		{name: "valid-two-files-glob", prepare: func(d string) []string {
 			write(filepath.Join(d, "conf/a.yaml"), valid())
 			write(filepath.Join(d, "conf/b.yaml"), "parameters:\n  extra: 1\n")
@@ -232,6 +238,9 @@ func checkC10(c *Ctx) error {
 		outRel := j.cs.outRel
 		if outRel == "" {
 			outRel = "out.go"
+			if j.cs.outName != "" {
+				outRel = j.cs.outName
+			}
 		}
 		out := filepath.Join(dir, outRel)
 		if j.cs.outPrep != nil {
